@@ -277,7 +277,14 @@ func concChild(args []string) int {
 				case x < editShare+readShare && id != "":
 					ev := ConcEvent{W: w, Bug: id.String(), Call: now()}
 					var err error
-					switch rng.Intn(9) {
+					switch rng.Intn(10) {
+					case 9:
+						// a full-text query whose terms match the bugs other workers are creating at this moment
+						ev.Op = "query-search"
+						var q *query.Query
+						if q, err = query.Parse([]string{"new", "created concurrently", "new status:open", "comment"}[rng.Intn(4)]); err == nil {
+							_, err = c.Bugs().Query(q)
+						}
 					case 6:
 						ev.Op = "resolve-excerpt-prefix"
 						_, err = c.Bugs().ResolveExcerptPrefix(id.String()[:10])
